@@ -56,26 +56,19 @@ func dyingWindow(o *out, c *hx.Ctx) {
 		} else {
 			sub.close()
 		}
-		entered := waitFor(2*time.Second, func() bool { return s.backend.termEntered("dw", 1) })
+		entered := waitFor(long, func() bool { return s.backend.termEntered("dw", 1) })
 		const k = 24
 		for i := 0; i < k; i++ {
 			feeder.send(&packet.Publish{ID: packet.ID(1 + i), Message: packet.Message{Topic: "dw/x", Payload: payload(0, 1, i), QOS: 1}})
 		}
-		accepted := waitFor(3*time.Second, func() bool { return ackCount(feeder) >= k })
+		accepted := waitFor(long, func() bool { return ackCount(feeder) >= k })
 		rel()
 		sub.close()
 		np, _ := dialPeer("sub2", s.port, true)
 		np.state = st
 		np.connect("dw", false, nil)
-		np.idle(40*time.Millisecond, 3*time.Second)
-		var missing []int
-		st.mu.Lock()
-		for i := 0; i < k; i++ {
-			if !st.acked[i] {
-				missing = append(missing, i)
-			}
-		}
-		st.mu.Unlock()
+		waitFor(long, func() bool { return len(st.missing(k)) == 0 })
+		missing := st.missing(k)
 		o.direct("nothing_lost", n, entered && accepted && len(missing) == 0,
 			fmt.Sprintf("cleanup reached Terminate=%v, all %d publishes acknowledged to the publisher=%v, never delivered to the persistent subscriber after its reconnect: %v", entered, k, accepted, missing))
 		np.close()
@@ -96,20 +89,20 @@ func coSubscriber(o *out, c *hx.Ctx) {
 		b1.connect("cb", false, nil)
 		b1.subscribe(1, "co/#", pq)
 		b1.close()
-		b1.isClosed(time.Second)
+		b1.isClosed(long)
+		waitFor(long, func() bool { return s.backend.termEntered("cb", 1) })
 		a, _ := dialPeer("A", s.port, true)
 		a.connect("ca", true, nil)
 		a.subscribe(1, "co/#", 0)
 		feeder, _ := dialPeer("feed", s.port, true)
 		feeder.connect("feed", true, nil)
-		time.Sleep(20 * time.Millisecond)
 		feeder.send(&packet.Publish{ID: 1, Message: packet.Message{Topic: "co/x", Payload: payload(0, pq, 0), QOS: packet.QOS(pq)}})
-		waitFor(2*time.Second, func() bool { return ackCount(feeder) >= 1 })
-		a.idle(20*time.Millisecond, time.Second)
+		waitFor(long, func() bool { return ackCount(feeder) >= 1 })
+		waitFor(long, func() bool { return len(a.received()) >= 1 })
 		gotA := len(a.received())
 		b2, _ := dialPeer("B2", s.port, false) // does not acknowledge
 		b2.connect("cb", false, nil)
-		b2.idle(30*time.Millisecond, time.Second)
+		waitFor(long, func() bool { return len(b2.received()) >= 1 })
 		var first *packet.Publish
 		if r := b2.received(); len(r) > 0 {
 			first = r[0]
@@ -117,16 +110,17 @@ func coSubscriber(o *out, c *hx.Ctx) {
 		okQ := first != nil && int(first.Message.QOS) == pq && first.ID != 0
 		o.direct("qos_kept", n, gotA == 1 && okQ, fmt.Sprintf("QoS 0 co-subscriber received %d; persistent subscriber (granted %d) received %v", gotA, pq, first))
 		b2.close()
-		b2.isClosed(time.Second)
+		b2.isClosed(long)
 		b3, _ := dialPeer("B3", s.port, true)
 		b3.connect("cb", false, nil)
-		b3.idle(30*time.Millisecond, time.Second)
-		again := false
-		for _, p := range b3.received() {
-			if _, _, i, ok := parsePayload(p.Message.Payload); ok && i == 0 && p.Dup && int(p.Message.QOS) == pq {
-				again = true
+		again := waitFor(long, func() bool {
+			for _, p := range b3.received() {
+				if _, _, i, ok := parsePayload(p.Message.Payload); ok && i == 0 && p.Dup && int(p.Message.QOS) == pq {
+					return true
+				}
 			}
-		}
+			return false
+		})
 		o.direct("nothing_lost", n, again, "the unacknowledged delivery is retransmitted (dup) after the subscriber's reconnect")
 		b3.close()
 		a.close()
@@ -142,7 +136,7 @@ func coSubscriber(o *out, c *hx.Ctx) {
 // the will of a client that ended without DISCONNECT reaches every matching observer exactly once — also an observer
 // that is busy (window used up, queue full) at that moment and acknowledges a little later
 func runC12(c *hx.Ctx) {
-	o := &out{c: c}
+	o := newOut(c)
 	for _, wq := range []int{0, 1, 2} {
 		for _, cause := range []string{"close", "protocol-error"} {
 			n := o.scn(fmt.Sprintf("c12 will (QoS %d) for an observer whose queue is full when the client ends by %s", wq, cause))
@@ -166,7 +160,7 @@ func runC12(c *hx.Ctx) {
 			for i := 0; i < 3; i++ {
 				feeder.send(&packet.Publish{ID: packet.ID(1 + i), Message: packet.Message{Topic: "fill/x", Payload: payload(0, 1, i), QOS: 1}})
 			}
-			filled := waitFor(2*time.Second, func() bool { return ackCount(feeder) >= 3 })
+			filled := waitFor(long, func() bool { return ackCount(feeder) >= 3 })
 			wc, _ := dialPeer("wc", s.port, true)
 			wc.connect("wc", true, &packet.Message{Topic: "will/wc", Payload: []byte("gone"), QOS: packet.QOS(wq)})
 			if cause == "close" {
@@ -174,19 +168,12 @@ func runC12(c *hx.Ctx) {
 			} else {
 				wc.send(packet.NewConnack())
 			}
-			time.Sleep(120 * time.Millisecond) // the cleanup is publishing the will (QoS>0: waiting for room at the observer)
+			// the cleanup is publishing the will (QoS>0: parked inside the backend, waiting for room at the busy observer; QoS 0: done)
+			waitFor(long, func() bool { return s.backend.parked("wc") >= 1 || s.backend.published("wc") >= 1 })
 			obs.releaseHeld()
-			obs.idle(40*time.Millisecond, 3*time.Second)
-			idle.idle(20*time.Millisecond, time.Second)
-			count := func(p *peer) int {
-				k := 0
-				for _, m := range p.received() {
-					if m.Message.Topic == "will/wc" {
-						k++
-					}
-				}
-				return k
-			}
+			count := func(p *peer) int { return p.countTopic("will/wc") }
+			waitFor(long, func() bool { return count(obs) >= 1 && count(idle) >= 1 })
+			time.Sleep(absence)
 			// a QoS 0 will uses the temporary queue, which is not full: delivered as well
 			o.direct("will_delivered", n, filled && count(obs) == 1 && count(idle) == 1,
 				fmt.Sprintf("queue filled=%v; will seen by the busy observer %d time(s), by the idle observer %d time(s) (1 and 1 expected)", filled, count(obs), count(idle)))
@@ -200,7 +187,8 @@ func runC12(c *hx.Ctx) {
 			obs.close()
 			idle.close()
 			feeder.close()
-			bad := s.backend.lifecycle(3 * time.Second)
+			wc.close()
+			bad := s.backend.lifecycle(long)
 			o.direct("lifecycle", n, len(bad) == 0, joinLines(bad))
 			s.stop()
 			o.syslog(n, s)
@@ -219,8 +207,9 @@ func runC12(c *hx.Ctx) {
 		wc, _ := dialPeer("wc", s.port, true)
 		wc.connect("wc", true, &packet.Message{Topic: "will/wc", Payload: []byte("gone"), QOS: 1})
 		wc.send(&packet.Disconnect{})
-		wc.isClosed(time.Second)
-		obs.idle(30*time.Millisecond, 500*time.Millisecond)
+		wc.isClosed(long)
+		waitFor(long, func() bool { c := s.backend.nth("wc", 1); return c != nil && closedNow(c) }) // the cleanup is through
+		time.Sleep(absence)
 		o.direct("no_will_after_disconnect", n, len(obs.received()) == 0, fmt.Sprintf("observer received %d message(s)", len(obs.received())))
 		obs.close()
 		s.stop()
@@ -268,18 +257,19 @@ func backPressure(o *out, c *hx.Ctx, thorough bool) {
 					if f.qos == 2 {
 						// a publisher must not have more QoS 2 exchanges open than the broker's ParallelPublishes (10): its own
 						// PUBRELs would wait behind a PUBLISH the broker cannot take yet (a client-side obligation, see DESIGN 12.4)
-						waitFor(5*time.Second, func() bool { return i-ackCount(pub) < 8 })
+						waitFor(3*long, func() bool { return i-ackCount(pub) < 8 })
 					}
 					pub.send(&packet.Publish{ID: packet.ID(1 + i), Message: packet.Message{Topic: "bp/x", Payload: payload(1, f.qos, i), QOS: packet.QOS(f.qos)}})
 				}
 			}()
 			if mode == "paused" {
-				time.Sleep(80 * time.Millisecond) // window used up, queue full, the publisher is held back inside the broker
+				// window used up, queue full: the publisher is held back inside the broker
+				waitFor(long, func() bool { return s.backend.parked("bppub") >= 1 })
 				sub.releaseHeld()
 			}
 			<-done
-			all := waitFor(5*time.Second, func() bool { return len(sub.received()) >= f.burst })
-			acked := waitFor(3*time.Second, func() bool { return ackCount(pub) >= f.burst })
+			all := waitFor(3*long, func() bool { return len(sub.received()) >= f.burst })
+			acked := waitFor(3*long, func() bool { return ackCount(pub) >= f.burst })
 			got := sub.received()
 			seq := []int{}
 			for _, p := range got {
@@ -306,7 +296,7 @@ func backPressure(o *out, c *hx.Ctx, thorough bool) {
 }
 
 func runC16(c *hx.Ctx) {
-	o := &out{c: c}
+	o := newOut(c)
 	backPressure(o, c, c.Thorough())
 }
 
@@ -322,15 +312,16 @@ func closeThenConnect(o *out, c *hx.Ctx) {
 			p, _ := dialPeer("early", s.port, true)
 			p.connect("early", true, nil)
 			p.send(&packet.Disconnect{})
-			p.isClosed(time.Second)
+			p.isClosed(long)
+			// the early client is gone from the backend's point of view too
+			waitFor(long, func() bool { c := s.backend.nth("early", 1); return c != nil && closedNow(c) })
 		}
-		time.Sleep(20 * time.Millisecond)
 		closed := make(chan bool, 1)
-		go func() { closed <- s.backend.Close(2 * time.Second) }()
+		go func() { closed <- s.backend.Close(long) }()
 		var ok bool
 		select {
 		case ok = <-closed:
-		case <-time.After(4 * time.Second):
+		case <-time.After(2 * long):
 		}
 		o.direct("shutdown", n, ok, "Close of a backend without clients returns true")
 		late, err := dialPeer("late", s.port, true)
@@ -338,17 +329,17 @@ func closeThenConnect(o *out, c *hx.Ctx) {
 		if late != nil {
 			ack := late.connect("late", true, nil)
 			refused = ack == nil || ack.ReturnCode != packet.ConnectionAccepted
-			gone := late.isClosed(3 * time.Second)
-			o.direct("late_connection_released", n, gone || !refused, fmt.Sprintf("connection arriving after Close: accepted=%v, closed by the broker within 3s=%v", !refused, gone))
+			gone := late.isClosed(long)
+			o.direct("late_connection_released", n, gone || !refused, fmt.Sprintf("connection arriving after Close: accepted=%v, closed by the broker=%v", !refused, gone))
 			late.close()
 		}
 		// a witness on a second, healthy broker instance is not needed: the life cycle check covers "closed signal fires"
-		bad := s.backend.lifecycle(3 * time.Second)
+		bad := s.backend.lifecycle(long)
 		o.direct("lifecycle", n, len(bad) == 0, joinLines(bad))
 		close(s.quit)
 		select {
 		case <-s.done:
-		case <-time.After(3 * time.Second):
+		case <-time.After(long):
 			o.direct("shutdown", n, false, "engine did not stop")
 		}
 		o.syslog(n, s)
@@ -395,24 +386,34 @@ func ownQueueFull(o *out, c *hx.Ctx, will bool) {
 		for i := 0; i < 3; i++ {
 			pub.send(&packet.Publish{ID: packet.ID(1 + i), Message: packet.Message{Topic: "oq/x", Payload: payload(1, 1, i), QOS: 1}})
 		}
-		filled := waitFor(2*time.Second, func() bool { return ackCount(pub) >= 3 })
+		filled := waitFor(long, func() bool { return ackCount(pub) >= 3 })
 		if will {
 			pub.close()
 		} else {
 			pub.send(&packet.Publish{ID: 4, Message: packet.Message{Topic: "oq/x", Payload: payload(1, 1, 3), QOS: 1}})
 		}
-		pub.isClosed(2 * time.Second)
-		got := 0
-		for _, p := range obs {
-			p.idle(30*time.Millisecond, time.Second)
-			for _, m := range p.received() {
-				if will && m.Message.Topic == "oq/will" {
-					got++
-				} else if _, _, i, ok := parsePayload(m.Message.Payload); !will && ok && i == 3 {
-					got++
+		pub.isClosed(long) // the refused publish ends the publisher's connection
+		count := func() int {
+			got := 0
+			for _, p := range obs {
+				for _, m := range p.received() {
+					if will && m.Message.Topic == "oq/will" {
+						got++
+					} else if _, _, i, ok := parsePayload(m.Message.Payload); !will && ok && i == 3 {
+						got++
+					}
 				}
 			}
+			return got
 		}
+		if will {
+			waitFor(long, func() bool { return count() >= len(obs) })
+		} else {
+			// the publisher's cleanup is through: whatever the refused publish did, it has done
+			waitFor(long, func() bool { c := s.backend.nth("oq-p", 1); return c != nil && closedNow(c) })
+		}
+		time.Sleep(absence)
+		got := count()
 		if will {
 			o.direct("will_delivered", n, filled && got == len(obs), fmt.Sprintf("own queue filled=%v; the will reached %d of %d matching observers", filled, got, len(obs)))
 		} else {
@@ -430,7 +431,7 @@ func ownQueueFull(o *out, c *hx.Ctx, will bool) {
 }
 
 func runC06(c *hx.Ctx) {
-	o := &out{c: c}
+	o := newOut(c)
 	ownQueueFull(o, c, false)
 	ownQueueFull(o, c, true)
 }
